@@ -35,8 +35,8 @@ type oblReport struct {
 }
 
 type knownFinding struct {
-	Prop, Obligation, What string
-	Fixed                   bool
+	Prop, Obligation, Clause, What string
+	Fixed                           bool
 }
 
 func loadKnownFindings(path string) []knownFinding {
@@ -61,6 +61,14 @@ func loadKnownFindings(path string) []knownFinding {
 		if i := strings.Index(rest, " : "); i >= 0 {
 			what = strings.TrimSpace(rest[i+3:])
 			rest = rest[:i]
+		}
+		// clause="<contract clause text>": with it, obligation= is a prefix (function#KIND) and the clause text
+		// identifies the obligation, so that editing a contract does not renumber a finding away
+		if i := strings.Index(rest, "clause=\""); i >= 0 {
+			if j := strings.Index(rest[i+8:], "\""); j >= 0 {
+				kf.Clause = rest[i+8 : i+8+j]
+				rest = rest[:i] + rest[i+8+j+1:]
+			}
 		}
 		for _, f := range strings.Fields(rest) {
 			if strings.HasPrefix(f, "property=") {
@@ -309,7 +317,7 @@ func mainCheck(args []string) int {
 	for _, o := range failed {
 		isKnown := false
 		for _, k := range known {
-			if !k.Fixed && k.Prop == *prop && k.Obligation == o.Name {
+			if !k.Fixed && k.Prop == *prop && (k.Obligation == o.Name || (k.Clause != "" && strings.HasPrefix(o.Name, k.Obligation) && strings.Contains(o.Desc, k.Clause))) {
 				isKnown = true
 				knownLines = append(knownLines, fmt.Sprintf("KNOWN-FINDING: property=%s %s (%s)", *prop, k.What, o.Name))
 			}
